@@ -444,6 +444,7 @@ type c12cn struct {
 	extra                int
 	hjEOF                bool
 	serveReturned        bool
+	workerDone           bool // Serve mode: the server reported StateClosed / StateHijacked for this connection
 	serveErr             error
 }
 
@@ -514,6 +515,29 @@ func c12server(p c12sp) func() {
 			ctx.SetBodyString("ok")
 			o.running--
 		}
+		if p.serve {
+			// a closed perIPConn wrapper has no RemoteAddr any more: remember which connection a conn value stands for
+			// while it is alive
+			byConn := map[net.Conn]int{}
+			s.ConnState = func(c net.Conn, st ConnState) {
+				i, ok := byConn[c]
+				if !ok {
+					if st == StateClosed {
+						return // turned away before it was ever tracked
+					}
+					ta, _ := c.RemoteAddr().(*net.TCPAddr)
+					if ta == nil {
+						return
+					}
+					i = ta.Port - 1000
+					byConn[c] = i
+				}
+				if st == StateClosed || st == StateHijacked {
+					o.conns[i].workerDone = true
+					delete(byConn, c)
+				}
+			}
+		}
 		mcrt.Invariant(func() string {
 			if o.running > p.conc {
 				return fmt.Sprintf("handlers-exceed-concurrency|%d request handlers run at once, Concurrency=%d", o.running, p.conc)
@@ -524,13 +548,27 @@ func c12server(p c12sp) func() {
 				c := &o.conns[i]
 				if c.entered && !c.clientClosed && !c.hjDone {
 					perIP[p.clients[i].ip]++
-					if !c.hjEntered {
+					// "being served" is measured by what the server itself does: under ServeConn until that call returns
+					// (its deferred releaseConcurrency is the last visible operation, so the flag flips together with the
+					// slot), under Serve until the worker reports StateClosed/StateHijacked (which it does before it puts
+					// itself back on the ready list). A hijacked connection leaves the count there, NOT when the hijack
+					// handler starts: the server spawns that goroutine and may release the slot before it first runs.
+					serverDone := c.serveReturned
+					if p.serve {
+						serverDone = c.workerDone
+					}
+					if !c.hjEntered && !serverDone {
 						served++
 					}
 				}
 			}
 			if served > p.conc {
-				return fmt.Sprintf("served-conns-exceed-concurrency|%d connections are being served (request handler entered, client has not closed, not hijacked), Concurrency=%d", served, p.conc)
+				var st []string
+				for i := range o.conns {
+					c := &o.conns[i]
+					st = append(st, fmt.Sprintf("conn%d{entered=%v clientClosed=%v hjEntered=%v hjDone=%v ServeConnReturned=%v workerDone=%v}", i, c.entered, c.clientClosed, c.hjEntered, c.hjDone, c.serveReturned, c.workerDone))
+				}
+				return fmt.Sprintf("served-conns-exceed-concurrency|%d connections are being served (request handler entered, client has not closed, ServeConn not returned / worker not finished with it), Concurrency=%d; Server.concurrency=%d; %s", served, p.conc, c12peek32(unsafe.Pointer(&s.concurrency)), strings.Join(st, " "))
 			}
 			if p.maxip > 0 {
 				for ip, k := range perIP {
@@ -775,15 +813,21 @@ func TestVerif_C12(t *testing.T) {
 	r.Rule("(a) kernels: 3 threads x {wrapPerIPConn, hold (one step | until the others tried), Close once|twice} on 1-2 IPv4 addresses with MaxConnsPerIP 1-2; bare perIPConnCounter Register/Unregister x2 per thread; " +
 		"tryAcquireConcurrency/releaseConcurrency x1-2 per thread with Concurrency 1-2. (b) real Server via Serve(InmemoryListener) and via ServeConn, Concurrency 1-2, MaxConnsPerIP 0-2, 2-3 client threads from 1-2 addresses, " +
 		"each dial/write/read then close | hijack+release | abort; handlers held on a gate until every other client is served, rejected or gone (or free-running / staggered). All schedules up to the preemption bound. " +
-		"Invariant in every state: running handlers <= Concurrency; connections with handler entered, not closed by the client, not hijacked <= Concurrency; such connections per IP (hijacked ones until their handler returns) <= MaxConnsPerIP; counters never negative. " +
+		"Invariant in every state: running handlers <= Concurrency; connections with handler entered, not closed by the client, whose ServeConn has not returned (Serve: whose worker has not reported StateClosed/StateHijacked) <= Concurrency; such connections per IP (hijacked ones until their handler returns) <= MaxConnsPerIP; counters never negative. " +
 		"Per execution: a turned-away connection reads one complete 503/429 and then EOF; at quiescence GetCurrentConcurrency()==0, GetOpenConnectionsCount()==pre-traffic value, per-IP map empty. Non-trivial: executions with >=1 deviation")
 	r.Assume("mcrt shim semantics (litmus-tested)", "sync.Pool modelled as deterministic LIFO without scheduling points", "workerChanCap fixed to 1 (GOMAXPROCS>1 behaviour)",
 		"'open count back to baseline' per DESIGN 3.7: 0 under a listening Serve, -1 for a ServeConn-only server")
 	thorough := r.Thorough()
 	var scs []mcx.Scenario
 	add := func(name string, bound, horizon int, body func(), chk func(x *mcrt.Exec) (string, string, string)) {
-		if f := os.Getenv("VERIF_SCENARIO"); f != "" && !strings.Contains(name, f) {
-			return
+		if f := os.Getenv("VERIF_SCENARIO"); f != "" { // substring filter for debugging; alternatives separated by '|'
+			hit := false
+			for _, alt := range strings.Split(f, "|") {
+				hit = hit || strings.Contains(name, alt)
+			}
+			if !hit {
+				return
+			}
 		}
 		scs = append(scs, mcx.Scenario{Name: name, Cfg: mcrt.Config{Bound: bound, Horizon: horizon}, Body: body, Check: chk})
 	}
